@@ -174,9 +174,15 @@ func DrawH2Script(t *rapid.T, o H2GenOpts) *H2Script {
 			sortInts(cuts)
 		}
 		var fs []Frame
+		var tprio *PrioParam
 		if trailers != nil {
+			// a trailer block may carry the PRIORITY flag too (legal; it counts for the fingerprint)
+			if drawBool(t, "tprio", 40) {
+				tp := drawPrio(t, stream)
+				tprio = &tp
+			}
 			// header block without content-length so the DATA frames need not end the stream
-			fs = h2RequestWithTrailers(enc, stream, r, perm, prio, cuts, trailers)
+			fs = h2RequestWithTrailers(enc, stream, r, perm, prio, cuts, trailers, tprio)
 		} else {
 			var ds []int
 			if hasBody {
@@ -195,7 +201,7 @@ func DrawH2Script(t *rapid.T, o H2GenOpts) *H2Script {
 				if f.Flags&FlagEndHeaders != 0 {
 					if i > 0 && fs[i].Type == FHeaders {
 						// trailers block
-						addEvent(FPEvent{Kind: "headers", Stream: stream, Pseudo: nil})
+						addEvent(FPEvent{Kind: "headers", Stream: stream, Prio: tprio, Pseudo: nil})
 					} else {
 						addEvent(FPEvent{Kind: "headers", Stream: stream, Prio: prio, Pseudo: pseudo})
 						s.Reqs = append(s.Reqs, H2Req{Spec: r, Stream: stream, EventIdx: len(s.Events), Group: group, HasBody: hasBody, Trailers: trailers})
@@ -223,7 +229,7 @@ func sortInts(a []int) {
 	}
 }
 
-func h2RequestWithTrailers(enc *HEnc, stream uint32, r ReqSpec, perm []string, prio *PrioParam, cuts []int, trailers [][2]string) []Frame {
+func h2RequestWithTrailers(enc *HEnc, stream uint32, r ReqSpec, perm []string, prio *PrioParam, cuts []int, trailers [][2]string, tprio *PrioParam) []Frame {
 	var fields [][2]string
 	for _, k := range perm {
 		switch k {
@@ -245,7 +251,7 @@ func h2RequestWithTrailers(enc *HEnc, stream uint32, r ReqSpec, perm []string, p
 	fs := HeadersFrames(stream, enc.Block(fields), false, prio, -1, cuts)
 	half := len(r.Body) / 2
 	fs = append(fs, DataFrame(stream, r.Body[:half], false, -1), DataFrame(stream, r.Body[half:], false, -1))
-	fs = append(fs, HeadersFrames(stream, enc.Block(trailers), true, nil, -1, nil)...)
+	fs = append(fs, HeadersFrames(stream, enc.Block(trailers), true, tprio, -1, nil)...)
 	return fs
 }
 
